@@ -623,7 +623,7 @@ static Boolean DecodePseudo(void) {
     char *   cp, *cend;
 
     if (Memo("DW")) {
-        if (ChkArgCnt(1, ArgCntMax)) {
+        if (ChkArgCnt(1, ArgCntMax) && ChkArgCodeSpace(4)) {
             TempResult t;
 
             as_tempres_ini(&t);
